@@ -432,7 +432,7 @@ def norm_cdf(x, loc=0, scale=1):
     eng = engine()
     arg = (x - loc) / scale
     r = _uf1('Phi')(z3.simplify(_zr(arg)))
-    eng.add_axiom(z3.And(r >= 0, r <= 1))
+    eng.add_lazy_axiom(z3.And(r >= 0, r <= 1))
     return symx.wrap(r)
 
 
